@@ -827,3 +827,84 @@ Fixpoint run_conns (picks : list nat) (cs : list conn) : list conn :=
   | [] => cs
   | i :: picks' => run_conns picks' (step_nth i cs)
   end.
+
+(* ------------------------------------------------------------------ *)
+(* handle() as a whole: the parser, then the wrapped handler.  The call of
+   super().handle(sock, addr) is an explicit step [HCall addr k]; what the
+   wrapped handler does (return / raise exception number e, possibly after
+   reading from the socket) is the environment's choice, and [k] is what
+   handle() does with that outcome.  In the code the call stands AFTER the
+   try/except/else statement, so nothing the wrapped handler raises is caught:
+   [call_once].  ProxyProtocolV1.handle has no `except LocalConnection`. *)
+Inductive hout := HoReturn | HoRaise (e : N).
+Inductive hend :=
+| HReturned                 (* handle() returns *)
+| HPropagated (e : N)       (* the wrapped handler's exception leaves handle() *)
+| HParserEscape (e : exc)   (* an exception of the parser other than the caught ones leaves handle() *)
+| HOutOfFuel.
+Inductive hproc :=
+| HDone (o : hend)
+| HRecv (n : nat) (k : bytes -> hproc)
+| HCall (a : addr) (k : hout -> hproc).
+
+(* run the parser coroutine, then continue with its result *)
+Fixpoint lift (p : proc) (k : res (addr * addr) -> hproc) : hproc :=
+  match p with
+  | PDone r => k r
+  | PRecv n f => HRecv n (fun chunk => lift (f chunk) k)
+  end.
+
+Definition end_of (o : hout) : hend :=
+  match o with HoReturn => HReturned | HoRaise e => HPropagated e end.
+Definition call_once (a : addr) : hproc := HCall a (fun o => HDone (end_of o)).
+
+(* the try/except/else of ProxyProtocolV1.handle, then super().handle(sock, src_addr) *)
+Definition p_finish_v1 (r : res (addr * addr)) : hproc :=
+  match r with
+  | Ok (src, _) => call_once src
+  | Raise (EAssert _) => call_once ANone
+  | Raise e => HDone (HParserEscape e)
+  | OutOfFuel => HDone HOutOfFuel
+  end.
+(* ... of ProxyProtocolV2.handle and ProxyProtocol.handle *)
+Definition p_finish (r : res (addr * addr)) : hproc :=
+  match r with
+  | Ok (src, _) => call_once src
+  | Raise ELocal => HDone HReturned
+  | Raise (EAssert _) => call_once ANone
+  | Raise e => HDone (HParserEscape e)
+  | OutOfFuel => HDone HOutOfFuel
+  end.
+
+Definition p_handle_v1 (pton6 : bytes -> option bytes) (ntop6 : bytes -> bytes) : hproc :=
+  lift (p_process_v1 pton6 ntop6 []) p_finish_v1.
+Definition p_handle_v2 (ntop6 : bytes -> bytes) : hproc := lift (p_process_v2 ntop6 []) p_finish.
+Definition p_handle_auto (pton6 : bytes -> option bytes) (ntop6 : bytes -> bytes) : hproc :=
+  lift (p_process_auto pton6 ntop6) p_finish.
+
+(* the wrapped handler: given the address and the socket as the parser left
+   it, it may read from the socket and returns or raises *)
+Definition handler := addr -> sock -> hout * sock.
+
+(* result: how handle() ends, the socket afterwards, and every call of the
+   wrapped handler with the socket state at the moment of the call *)
+Fixpoint run_h (p : hproc) (h : handler) (s : sock) : hend * sock * list (addr * sock) :=
+  match p with
+  | HDone o => (o, s, [])
+  | HRecv n k => let '(chunk, s') := recv_into s n in run_h (k chunk) h s'
+  | HCall a k =>
+      let '(o, s') := h a s in
+      let '(e, s'', calls) := run_h (k o) h s' in
+      (e, s'', (a, s) :: calls)
+  end.
+
+(* what must happen after the parser, stated on the big-step result *)
+Definition after_parse (h : handler) (x : hres * sock) : hend * sock * list (addr * sock) :=
+  let '(hr, s1) := x in
+  match hr with
+  | HAddr a => let '(o, s2) := h a s1 in (end_of o, s2, [(a, s1)])
+  | HInvalid _ => let '(o, s2) := h ANone s1 in (end_of o, s2, [(ANone, s1)])
+  | HLocal => (HReturned, s1, [])
+  | HEscape e => (HParserEscape e, s1, [])
+  | HFuel => (HOutOfFuel, s1, [])
+  end.
